@@ -51,7 +51,7 @@ func isHF(k string) bool {
 
 func isImageOp(k string) bool {
 	switch k {
-	case "image", "imagefile", "imagefloat", "cellimg":
+	case "image", "imagefile", "imagefloat", "cellimg", "cellimgcfg", "cellimgfile":
 		return true
 	}
 	return false
